@@ -45,6 +45,14 @@ func NewParser() (*parser, error) {
 		return nil, err
 	}
 
+	// Generate the types that do not depend on any collection, exactly as SetSchema does,
+	// so that a database without collections exposes the same types on its first start
+	// as on every later start (where loadSchema calls SetSchema with no definitions).
+	_, err = schemaManager.Generator.Generate(context.Background(), nil)
+	if err != nil {
+		return nil, err
+	}
+
 	p := &parser{}
 	p.schemaManager.Store(schemaManager)
 
